@@ -26,7 +26,7 @@ def staticTargets (i : Instr) : List Nat :=
   match i.info.sem.act with
   | .jump => [next + i.a]
   | .condJump _ _ => [next + i.a]
-  | .cmpJump _ => [next + i.a]
+  | .cmpJump _ _ => [next + i.a]
   | .forIn => [next + i.a]
   | .loop => if i.a ≤ next then [next - i.a] else []
   | .generator => [next + 1]
@@ -115,50 +115,36 @@ def checkStructure (P : Prog) (f : Func) : Except Fault (List Nat) :=
 def maxStates : Nat := 200000
 def maxDepth : Nat := 600
 
-def setAt (l : List (Option Nat)) (k : Nat) (v : Nat) : List (Option Nat) :=
-  l.set k (some v)
+/-- bookkeeping of the untrusted search: first depth seen per pc and the first edge that reaches a
+pc with another depth (diagnosis of an inconsistent join) -/
+structure Diag where
+  depthAt : Std.HashMap Nat Nat := {}
+  conflict : Option (Nat × Nat) := none
 
-/-- (lax mode) record the operand-stack depth with which the `do` block of every catch entry that
-starts at `s.pc` is entered; a second, different depth is an error -/
-def recordEntry (cs : List Catch) (s : St) : (k : Nat) → List (Option Nat) → Except Fault (List (Option Nat))
-  | _, [] => .ok []
-  | k, h :: rest =>
-    match recordEntry cs s (k + 1) rest with
-    | .error e => .error e
-    | .ok rest' =>
-      match cs[k]? with
-      | some c =>
-        if c.from_ = (s.pc : Int) then
-          match h with
-          | none => .ok (some s.stk.length :: rest')
-          | some d => if d = s.stk.length then .ok (h :: rest') else .error (.handlerDepth s.pc)
-        else .ok (h :: rest')
-      | none => .ok (h :: rest')
-
-def cfgOf (lax : Bool) (hd : List (Option Nat)) : Cfg :=
-  { lax := lax, hd := hd.map (fun o => o.getD 0) }
+def Diag.note (d : Diag) (src : Nat) (l : List St) : Diag :=
+  l.foldl (fun d s' =>
+    match d.depthAt[s'.pc]? with
+    | none => { d with depthAt := d.depthAt.insert s'.pc s'.stk.length }
+    | some k => if k = s'.stk.length || d.conflict.isSome then d else { d with conflict := some (src, s'.pc) }) d
 
 /-- Untrusted worklist search for the reachable abstract states. -/
-def explore (P : Prog) (f : Func) (lax : Bool) :
-    (fuel : Nat) → (work : List St) → (seen : Std.HashSet St) → (acc : List St) → (hd : List (Option Nat)) →
-    Except Fault (List St × List (Option Nat))
-  | 0, w, _, _, _ => .error (.tooDeep (w.head?.map (·.pc) |>.getD 0))
-  | _ + 1, [], _, acc, hd => .ok (acc, hd)
-  | fuel + 1, s :: work, seen, acc, hd =>
-    if seen.contains s then explore P f lax fuel work seen acc hd
-    else if s.stk.length > maxDepth || seen.size > maxStates then .error (.tooDeep s.pc)
+def explore (P : Prog) (f : Func) (cfg : Cfg) :
+    (fuel : Nat) → (work : List St) → (seen : Std.HashSet St) → (acc : List St) → Diag →
+    Except (Fault × Diag) (List St × Diag)
+  | 0, w, _, _, dg => .error (.tooDeep (w.head?.map (·.pc) |>.getD 0), dg)
+  | _ + 1, [], _, acc, dg => .ok (acc, dg)
+  | fuel + 1, s :: work, seen, acc, dg =>
+    if seen.contains s then explore P f cfg fuel work seen acc dg
+    else if s.stk.length > maxDepth || seen.size > maxStates then .error (.tooDeep s.pc, dg)
     else
-      match (if lax then recordEntry f.catches s 0 hd else .ok hd) with
-      | .error e => .error e
-      | .ok hd' =>
-        match exec P f (cfgOf lax hd') s with
-        | .error e => .error e
-        | .ok l => explore P f lax fuel (l ++ work) (seen.insert s) (s :: acc) hd'
+      match exec P f cfg s with
+      | .error e => .error (e, dg)
+      | .ok l => explore P f cfg fuel (l ++ work) (seen.insert s) (s :: acc) (dg.note s.pc l)
 
 /-- Trusted certificate check: `cert` contains the entry state and is closed under `exec`. -/
 def checkCert (P : Prog) (f : Func) (cfg : Cfg) (cert : List St) : Bool :=
   let idx := Std.HashSet.ofList cert
-  idx.contains St.entry &&
+  idx.contains (St.entry f cfg) &&
   cert.all fun s =>
     match exec P f cfg s with
     | .ok l => l.all fun s' => idx.contains s'
@@ -169,19 +155,12 @@ def onBoundaries (bs : List Nat) (cert : List St) : Bool :=
   let idx := Std.HashSet.ofList bs
   cert.all fun s => idx.contains s.pc
 
-/-- (lax) the depth assumed for a handler is the depth every state at the `do` entry has -/
-def hdConsistent (f : Func) (cfg : Cfg) (cert : List St) : Bool :=
-  cert.all fun s =>
-    (List.range f.catches.length).all fun k =>
-      match f.catches[k]?, cfg.hd[k]? with
-      | some c, some h => c.from_ ≠ (s.pc : Int) || s.stk.length = h
-      | _, _ => true
-
 structure Verdict where
   states : Nat
   maxDepth : Nat
   poly : List Nat      -- pcs reached with more than one operand-stack depth (sorted, distinct)
   cert : List St
+  conflict : Option (Nat × Nat) := none   -- diagnosis: first edge (from pc, to pc) arriving with another depth
 deriving Repr, Inhabited
 
 def depthTable (cert : List St) : Std.HashMap Nat Nat × List Nat :=
@@ -198,16 +177,27 @@ def insertSorted (x : Nat) : List Nat → List Nat
 
 def sortNat (l : List Nat) : List Nat := l.foldr insertSorted []
 
-def verifyFunc (P : Prog) (f : Func) (lax : Bool) : Except Fault Verdict :=
+/-- a fault together with the diagnosis gathered up to it -/
+structure Reject where
+  fault : Fault
+  conflict : Option (Nat × Nat) := none
+deriving Repr, Inhabited
+
+def verifyFuncD (P : Prog) (f : Func) (lax : Bool) : Except Reject Verdict :=
+  let cfg : Cfg := { lax := lax }
   match checkStructure P f with
-  | .error e => .error e
+  | .error e => .error ⟨e, none⟩
   | .ok bs =>
-      match explore P f lax (4 * maxStates) [St.entry] {} [] (f.catches.map fun _ => none) with
-      | .error e => .error e
-      | .ok (cert, hd) =>
-        let cfg := cfgOf lax hd
-        if checkCert P f cfg cert && onBoundaries bs cert && (!lax || hdConsistent f cfg cert) then
-          .ok ⟨cert.length, cert.foldl (fun m s => max m s.stk.length) 0, sortNat (depthTable cert).2, cert⟩
-        else .error .certRejected
+      match explore P f cfg (4 * maxStates) [St.entry f cfg] {} [] {} with
+      | .error (e, dg) => .error ⟨e, dg.conflict⟩
+      | .ok (cert, dg) =>
+        if checkCert P f cfg cert && onBoundaries bs cert then
+          .ok ⟨cert.length, cert.foldl (fun m s => max m s.stk.length) 0, sortNat (depthTable cert).2, cert, dg.conflict⟩
+        else .error ⟨.certRejected, dg.conflict⟩
+
+def verifyFunc (P : Prog) (f : Func) (lax : Bool) : Except Fault Verdict :=
+  match verifyFuncD P f lax with
+  | .ok v => .ok v
+  | .error r => .error r.fault
 
 end Elk.Bytecode
